@@ -76,6 +76,9 @@ def run_batch(args):
     ev.distinct = {}
     out = {"runs": [], "violations": [], "errors": [], "samples": [], "schedules": []}
     for run_seed in args["run_seeds"]:
+        if time.time() > args.get("deadline", 1e18):
+            out["cut_by_deadline"] = True
+            break
         if len(ev.memo) > 4000:
             ev.memo.clear()
         t0 = time.time()
@@ -178,6 +181,10 @@ def run_sweep(args):
                         "dry_status": dry[t]["status"]}
         fired_sites = {}
         for n in ords:
+            if time.time() > args.get("deadline", 1e18):
+                out["cut_by_deadline"] = True
+                out["sweep"]["points"] = len(out["runs"])
+                break
             plan = copy.deepcopy(base)
             plan["ops"][t]["fault"] = {"kind": "F2", "ordinal": n, "of": total}
             plan["sweep"]["ordinal"] = n
